@@ -22,6 +22,8 @@ type EvalCtx struct {
 	bound  int
 	depth  int
 	factSink *State
+	qvars  []string            // bound variable names in scope
+	trig   map[string][]string // bound variable -> candidate trigger terms (element reads indexed by it)
 }
 
 func (x *EvalCtx) fail(format string, a ...any) Val {
@@ -44,6 +46,14 @@ func (s *State) pureRoot(key, sort string) string {
 }
 
 func (s *State) pureRead(a *Addr, c comp) string {
+	switch a.Space {
+	case "fld":
+		s.noteRefLike(s.fldKey(a.Struct, a.Field, c.Suffix), c, false)
+	case "elem":
+		s.noteRefLike(elemKey(a.Elem, a.Path, c.Suffix), c, true)
+	case "cell":
+		s.noteRefLike("cell|"+typeKey(a.T)+c.Suffix, c, false)
+	}
 	switch a.Space {
 	case "fld":
 		return sel(s.pureRoot(s.fldKey(a.Struct, a.Field, c.Suffix), arrSort(sInt, c.Sort)), a.Ref)
@@ -340,7 +350,41 @@ func (s *State) resolvePure(a *Addr) *Addr {
 	return a
 }
 
+func (x *EvalCtx) recordTriggers(idx string, v Val) {
+	for _, q := range x.qvars {
+		if !strings.Contains(idx, q) {
+			continue
+		}
+		if x.trig == nil {
+			x.trig = map[string][]string{}
+		}
+		for _, t := range flatten(v) {
+			if strings.HasPrefix(t, "(select") && strings.Contains(t, q) && len(x.trig[q]) < 8 {
+				// the trigger must not mention other bound variables of inner quantifiers
+				ok := true
+				for _, o := range x.qvars {
+					if o != q && strings.Contains(t, o) {
+						ok = false
+					}
+				}
+				if ok {
+					x.trig[q] = append(x.trig[q], t)
+				}
+			}
+		}
+	}
+}
+
 func (x *EvalCtx) index(n *EIndex) Val {
+	v := x.index1(n)
+	if len(x.qvars) > 0 {
+		i := x.eval(n.I)
+		x.recordTriggers(i.S, v)
+	}
+	return v
+}
+
+func (x *EvalCtx) index1(n *EIndex) Val {
 	b := x.eval(n.X)
 	i := x.eval(n.I)
 	switch kindOf(b.T) {
@@ -348,7 +392,7 @@ func (x *EvalCtx) index(n *EIndex) Val {
 		et := b.T.Underlying().(*types.Slice).Elem()
 		abs := i.S
 		if b.Sl.Off != "0" {
-			abs = app("+", b.Sl.Off, i.S)
+			abs = ixT(b.Sl.Off, i.S)
 		}
 		return x.s.pureLoad(&Addr{Space: "elem", Ref: b.Sl.Base, Idx: abs, Elem: et, T: et})
 	case kMap:
@@ -489,6 +533,7 @@ func (x *EvalCtx) quant(n *EQuant) Val {
 	saved := map[string]Val{}
 	had := map[string]bool{}
 	var binds []string
+	var bnames []string
 	for i, v := range n.Vars {
 		t, srt := x.specType(n.Types[i])
 		if t == nil {
@@ -503,8 +548,11 @@ func (x *EvalCtx) quant(n *EQuant) Val {
 		}
 		x.vars[v] = Val{T: t, S: bn}
 		binds = append(binds, "("+bn+" "+srt+")")
+		x.qvars = append(x.qvars, bn)
+		bnames = append(bnames, bn)
 	}
 	body := x.eval(n.Body)
+	x.qvars = x.qvars[:len(x.qvars)-len(n.Vars)]
 	for _, v := range n.Vars {
 		if had[v] {
 			x.vars[v] = saved[v]
@@ -515,6 +563,22 @@ func (x *EvalCtx) quant(n *EQuant) Val {
 	q := "exists"
 	if n.Forall {
 		q = "forall"
+	}
+	// explicit triggers: element reads indexed by the bound variable (only for single-variable quantifiers whose
+	// candidate terms cover the variable)
+	if len(bnames) == 1 && len(x.trig[bnames[0]]) > 0 {
+		seen := map[string]bool{}
+		var pats []string
+		for _, t := range x.trig[bnames[0]] {
+			if !seen[t] && strings.Contains(body.S, t) {
+				seen[t] = true
+				pats = append(pats, ":pattern ("+t+")")
+			}
+		}
+		delete(x.trig, bnames[0])
+		if len(pats) > 0 {
+			return Val{T: boolT, S: fmt.Sprintf("(%s (%s) (! %s %s))", q, strings.Join(binds, " "), body.S, strings.Join(pats, " "))}
+		}
 	}
 	return Val{T: boolT, S: fmt.Sprintf("(%s (%s) %s)", q, strings.Join(binds, " "), body.S)}
 }
@@ -682,6 +746,52 @@ func (x *EvalCtx) callExpr(n *ECall) Val {
 			return x.fail("implements: %s is not an interface", tn.V)
 		}
 		return Val{T: boolT, S: x.s.implementsCond(a, it)}
+	case "detcall":
+		// detcall("pkg.Iface.Method", recv, args...): the (deterministic) result of that method
+		kn, ok := n.Args[0].(*EStr)
+		if !ok {
+			return x.fail("detcall: method key must be a string literal")
+		}
+		con := x.s.c.eng.contracts.Funcs[kn.V]
+		parts := strings.Split(kn.V, ".")
+		if con == nil || !con.Deterministic || len(parts) != 3 {
+			return x.fail("detcall: %s is not a deterministic interface contract", kn.V)
+		}
+		sp := x.s.c.eng.pkgByName[parts[0]]
+		var sig *types.Signature
+		if sp != nil {
+			if tm, ok := sp.Members[parts[1]].(*ssa.Type); ok {
+				if it, ok := tm.Type().Underlying().(*types.Interface); ok {
+					for i := 0; i < it.NumMethods(); i++ {
+						if it.Method(i).Name() == parts[2] {
+							sig = it.Method(i).Type().(*types.Signature)
+						}
+					}
+				}
+			}
+		}
+		if sig == nil || sig.Results().Len() != 1 {
+			return x.fail("detcall: cannot resolve %s", kn.V)
+		}
+		var args []Val
+		var as []string
+		for _, a := range n.Args[1:] {
+			v := x.eval(a)
+			args = append(args, v)
+			as = append(as, flatten(v)...)
+		}
+		rt := sig.Results().At(0).Type()
+		cs := comps(rt)
+		terms := make([]string, len(cs))
+		for j, c := range cs {
+			terms[j] = app(x.s.c.eng.detFn(kn.V, 0, j, args, c.Sort), as...)
+		}
+		v, _ := unflatten(rt, terms)
+		return v
+	case "instantOf":
+		a, b := x.eval(n.Args[0]), x.eval(n.Args[1])
+		x.s.c.declare("instantOf", "(declare-fun instantOf (Int Int) Int)")
+		return Val{T: intT, S: app("instantOf", a.S, b.S)}
 	case "itoa":
 		a := x.eval(n.Args[0])
 		x.s.c.declare("itoa", "(declare-fun itoa (Int) Str)")
